@@ -14,7 +14,7 @@ def run_family(ck, binary, family, count, seed, strict):
         raise vlib.Infra("c08 harness (%s): %s" % (family, rep.get("extra")))
     vlib.log("[schedules] %s: %d scenarios, %d inconclusive, %d divergences, %s" % (family, rep["evaluations"], rep["inconclusive"],
                                                                                    len(rep["divergences"]), rep.get("extra")))
-    if rep["evaluations"] and rep["inconclusive"] > 0.2 * rep["evaluations"]:
+    if rep["evaluations"] and rep["inconclusive"] > 0.2 * rep["evaluations"] and not rep["divergences"]:
         raise vlib.Infra("too many inconclusive scenarios: " + str(rep["extra"].get("infra_example")))
     ck.add_report(rep)
     trace = os.path.join(wd, "all.ndjson")
